@@ -285,6 +285,31 @@ def rule_coalesce(P):
             else:
                 R.fail(iid, where(f, a.line), Finding(R.rule, f["file"], base_name(f["q"]), "untrack:" + x,
                        "`%s` is absorbed into the freed chunk while it is still in the manager's tracked set (%s not called for it): its slots can be handed out again although they now belong to the merged hole" % (x, "/".join(sorted(untrack))), a.line, show_path(p_)))
+            # (e) a manager with a designated current hole: when the absorbed neighbour *is* the current hole, the designation follows the merged hole
+            if cur:
+                R.paths += 1
+                iid = "%s::recycleChunk: if `%s` is the current hole, the current hole becomes the merged hole" % (cls, x)
+
+                def unequal_arm(k, i, x=x):
+                    if k.kind != "branch" or not k.cond or len(k.succ) != 2:
+                        return False
+                    t = _nzs(k.cond["text"].replace("this->", ""))
+                    pos = 1 if k.cond.get("neg") else 0      # edge on which the un-negated atom holds
+                    if t.lstrip("!") in ("current_hole!=%s" % x, "%s!=current_hole" % x):
+                        return i == pos
+                    if t.lstrip("!") in ("current_hole==%s" % x, "%s==current_hole" % x):
+                        return i != pos
+                    return False
+                follows = lambda k, x=x: (k.kind == "ldef" and k.ev["var"] == hp and _nzs(k.ev.get("rhs", "")) == x) or (k.kind == "store" and (k.ev.get("member") or "").endswith("current_hole"))
+                starts = [s_ for b in cur for s_, i in b.succ if not unequal_arm(b, i)]
+                p_ = None
+                for st in starts:
+                    p_ = p_ or (None if follows(g.nodes[st]) else g.path(st, is_exit, avoid=follows, avoid_edge=unequal_arm))
+                if p_ is None:
+                    R.ok(iid, where(f, a.line))
+                else:
+                    R.fail(iid, where(f, a.line), Finding(R.rule, f["file"], base_name(f["q"]), "current-follows:" + x,
+                           "when the absorbed neighbour `%s` is the manager's current hole, a path leaves recycleChunk with current_hole still naming `%s` — an address inside the merged hole, which is then also filed in the heap: the same slots are handed out twice" % (x, x), a.line, show_path(p_)))
             # (c) re-tag after absorb
             R.paths += 1
             iid = "%s::recycleChunk: the hole is re-tagged after absorbing `%s`" % (cls, x)
